@@ -628,13 +628,11 @@ func c11Run(c c11Case) (fail *vlib.Failure, errLog string) {
 	}
 	_ = keep
 
-	// a well-formed program must also leave a well-formed tree whose byte slices
-	// point into the tables (same post-conditions as C12)
+	// a well-formed program must also leave a well-formed tree. (Whether the strings and buffers
+	// the tree holds are views of the table's bytes or copies is C12's clause, decided by the C12
+	// check; C11 says they carry the encoded values, which the comparison above has done.)
 	if d := c12TreeInvariants(tree); d != "" {
 		return vlib.Failf("after parsing a well-formed program the tree is no longer well-formed: %s", d), ""
-	}
-	if d := c12StraySlices(tree, keep); d != "" {
-		return vlib.Failf("after parsing a well-formed program: %s", d), ""
 	}
 	if pc := vlib.Catch(func() { tree.PrettyPrint(io.Discard) }); pc.Panicked {
 		return vlib.Failf("the tree of a well-formed program cannot be printed: %v", pc), ""
